@@ -105,6 +105,18 @@ def run(tier):
                 pre = best.get(json.dumps(x["ops"][:-1], sort_keys=True))
                 if pre:
                     x["mid"] = pre["between"] + x["between"] + [pre["early"], pre["snap_renamed"], pre["snap_done"]]
+        # "snapshot, then compress" ends in the state "compress" alone reaches first, so it is in no first-found history:
+        # built here from the two records that are (same final state; the state before the call is the snapshotted one)
+        if name.startswith("mid_"):
+            snap_op = {"op": "SaveSnapshot", "res": "ok"}
+            for k, x in list(best.items()):
+                last = x["ops"][-1]
+                if last.get("op") == "VCompress" and last.get("res") == "ok" and x.get("mid"):
+                    pre = best.get(json.dumps(x["ops"][:-1] + [snap_op], sort_keys=True))
+                    if pre:
+                        y = dict(x, ops=x["ops"][:-1] + [snap_op, last])
+                        y["mid"] = pre["between"] + x["between"] + [pre["early"], pre["snap_renamed"], pre["snap_done"]]
+                        best[json.dumps(y["ops"], sort_keys=True)] = y
         recs = list(best.values())
         if name == "rej_then_write":
             def rtw(ops):
